@@ -114,6 +114,18 @@ class DictVal(AV):
         return f'Dict{self.items!r}'
 
 
+class GSeq(AV):
+    """A lazily filtered sequence over known items whose filter conditions may be symbolic: (condition, element) pairs in
+    order (generator expressions with `if`, filter()).  Read by next(); any other consumer needs every condition decided."""
+    __slots__ = ('entries',)
+
+    def __init__(self, entries):
+        self.entries = list(entries)
+
+    def __repr__(self):
+        return f'<guarded sequence of {len(self.entries)}>'
+
+
 class ClassRef(AV):
     __slots__ = ('ci',)
 
@@ -326,6 +338,14 @@ class Evaluator:
             return [self.hp(st, v.oid).get(f, NONE) for f in self.prog.namedtuple_fields(v.cls)]
         if isinstance(v, DictVal):
             return [self.key_value(k) for k in v.items]
+        if isinstance(v, GSeq):
+            out = []
+            for c_, x_ in v.entries:
+                if not isinstance(c_, Const):
+                    return None
+                if c_.value:
+                    out.append(x_)
+            return out
         return None
 
     def scalar(self, v: AV) -> RF:
@@ -1141,18 +1161,31 @@ class Evaluator:
                 return SymObj(f'[{self.describe(elt)} for {it.path}{flt}]')
             raise Undecided('comprehension over unknown iterable')
         out = []
+        guarded = []
+        symbolic = False
         for x in its:
             sub = State(dict(st.env), st.heap, list(st.facts))
             self.assign(gen.target, x, sub, ctx)
-            keep = True
+            keep: AV = TRUE
             for c in gen.ifs:
-                tr = self.truth(self.eval(c, sub, ctx), sub)
+                cv = self.eval(c, sub, ctx)
+                tr = self.truth(cv, sub) if not isinstance(cv, Cond) else None
                 if tr is False:
-                    keep = False
-                elif tr is not True:
-                    raise Undecided('comprehension filter on a symbolic condition')
-            if keep:
-                out.append(self.eval(node.elt, sub, ctx))
+                    keep = FALSE
+                    break
+                if tr is not True:
+                    if not isinstance(node, ast.GeneratorExp):
+                        raise Undecided('comprehension filter on a symbolic condition')
+                    symbolic = True
+                    cb = self.call_ext(ExtRef('builtins', 'bool'), [cv], {}, sub, ctx)
+                    keep = cb if keep is TRUE else self._and(keep, cb)
+            if keep is FALSE:
+                continue
+            elt = self.eval(node.elt, sub, ctx)
+            guarded.append((keep, elt))
+            out.append(elt)
+        if symbolic:
+            return GSeq(guarded)
         return self.new_list(st, out)
 
     def e_GeneratorExp(self, node, st, ctx):
@@ -1518,6 +1551,16 @@ class Evaluator:
         if mod == 'math' or (mod == 'builtins' and name in ('abs', 'min', 'max', 'float', 'int', 'round')):
             extra = [kwargs[k] for k in sorted(kwargs)] if name == 'round' else []
             return self.lift(lambda *xs: self.math_call(mod, name, list(xs), st, ctx), *(list(args) + extra))
+        if mod == 'itertools' and name == 'islice' and 2 <= len(args) <= 4 and not kwargs and not isinstance(args[0], Cond):
+            its = self.items(st, args[0])
+            bounds = [None if (isinstance(a_, Const) and a_.value is None) else
+                      (int(self.scalar(a_).const_value()) if self.is_concrete_number(a_) else '?') for a_ in args[1:]]
+            if its is not None and '?' not in bounds:
+                return Tup(list(its[slice(*bounds)]))
+        if mod == 'itertools' and name == 'chain' and not kwargs:
+            seqs = [self.items(st, a_) if not isinstance(a_, Cond) else None for a_ in args]
+            if all(s_ is not None for s_ in seqs):
+                return Tup([x_ for s_ in seqs for x_ in s_])
         if mod == 'functools' and name == 'partial' and args:
             return FuncRef(None, lam=('partial', (args[0], list(args[1:]), dict(kwargs))))
         if mod == 'operator':
@@ -1604,6 +1647,30 @@ class Evaluator:
                         return x if name in ('tuple', 'list') else SymObj(f'{name}({x.path})')
                     raise Undecided(f'{name}() of {x!r}')
                 return self.lift(_seq, args[0])
+            if name == 'next' and 1 <= len(args) <= 2 and not kwargs and isinstance(args[0], GSeq):
+                result: AV = args[1] if len(args) == 2 else Raised('StopIteration')
+                for c_, x_ in reversed(args[0].entries):
+                    def pick(cv, x_=x_, rest_=result):
+                        tr = self.truth(cv, st)
+                        if isinstance(tr, bool):
+                            return x_ if tr else rest_
+                        return self.mk_cond(tr, x_, rest_)
+                    result = self.lift(pick, c_)
+                return result
+            if name == 'filter' and len(args) == 2 and not kwargs and not isinstance(args[1], Cond):
+                its = self.items(st, args[1])
+                if its is not None:
+                    ent = []
+                    for x_ in its:
+                        cv = x_ if (isinstance(args[0], Const) and args[0].value is None) else self.call(args[0], [x_], {}, st, ctx)
+                        ent.append((self.call_ext(ExtRef('builtins', 'bool'), [cv], {}, st, ctx), x_))
+                    g = GSeq(ent)
+                    done = self.items(st, g)
+                    return Tup(done) if done is not None else g
+            if name == 'map' and len(args) == 2 and not kwargs and not isinstance(args[1], Cond):
+                its = self.items(st, args[1])
+                if its is not None:
+                    return Tup([self.call(args[0], [x_], {}, st, ctx) for x_ in its])
             if name == 'next' and 1 <= len(args) <= 2 and not kwargs:
                 # next(<generator / list built from a known sequence>[, default])
                 its = self.items(st, args[0]) if not isinstance(args[0], Cond) else None
@@ -1882,6 +1949,11 @@ class Evaluator:
                     itv = None
                 if isinstance(itv, Tup) and len(itv.items) <= 40 and all(self._is_literal(x_, st) for x_ in itv.items):
                     return self.unroll_for(s, list(itv.items), 0, rest, st, ctx)
+            if isinstance(s, ast.While) and getattr(self, 'unroll', False) and not s.orelse:
+                # opt-in: a while loop whose condition is decided at every pass (concrete counters) is run pass by pass
+                t_w = self.unroll_while(s, rest, st, ctx, 0)
+                if t_w is not None:
+                    return t_w
             if isinstance(s, (ast.While, ast.For)):
                 self.havoc_loop(s, st, ctx)
                 early = self.loop_early_exits(s, st, ctx)
@@ -2045,6 +2117,36 @@ class Evaluator:
                 return Branch(t.test, cont(t.then), cont(t.orelse))
             if t.kind in ('fall', 'continue'):
                 return self.unroll_for(loop, its, i + 1, rest, t.state, ctx)
+            if t.kind == 'break':
+                return self.exec_block(list(rest), t.state, ctx)
+            return t
+        return cont(tree)
+
+    def unroll_while(self, loop: ast.While, rest, st: State, ctx: Ctx, depth: int):
+        """`while` with a condition that evaluates to a constant at every pass (opt-in, self.unroll).  None when the
+        condition is not decided at the first pass (the caller falls back to the havoc reading); Undecided when it stops
+        being decided later or the pass limit is hit."""
+        probe = st.copy() if depth == 0 else st
+        try:
+            tv = self.eval(loop.test, probe, ctx)
+            tr = self.truth(tv, probe) if not isinstance(tv, Cond) else None
+        except Undecided:
+            tr = None
+        if not isinstance(tr, bool):
+            if depth == 0:
+                return None
+            raise Undecided(f'while at line {loop.lineno}: the condition is not decided after {depth} passes')
+        if depth > 200:
+            raise Undecided(f'while at line {loop.lineno}: more than 200 passes')
+        if not tr:
+            return self.exec_block(list(rest), st, ctx)
+        tree = self.exec_block(list(loop.body), st, ctx)
+
+        def cont(t):
+            if isinstance(t, Branch):
+                return Branch(t.test, cont(t.then), cont(t.orelse))
+            if t.kind in ('fall', 'continue'):
+                return self.unroll_while(loop, rest, t.state, ctx, depth + 1)
             if t.kind == 'break':
                 return self.exec_block(list(rest), t.state, ctx)
             return t
